@@ -568,6 +568,127 @@ func run(args []string) error {
 		}
 	}
 
+	// ---- "inputs unchanged": no bip32 / bip39 call may modify its arguments, its receiver, or the buffer a key
+	//      was deserialised from (run-time check on the implementation; aliasing is invisible to the model).
+	//      Two different children are derived from the SAME deserialised parent and each is compared with the model.
+	{
+		same := func(a, b []byte) string {
+			if hx(a) == hx(b) {
+				return "yes"
+			}
+			return "no"
+		}
+		alias := func(what string, before, after []byte, extra map[string]interface{}) {
+			m := map[string]interface{}{"call": what, "unchanged": same(before, after), "before": hx(before), "after": hx(after)}
+			for k, v := range extra {
+				m[k] = v
+			}
+			emit("alias", "nop", []string{"-"}, "-", m)
+			hist.Add("alias:" + what + ":unchanged=" + same(before, after))
+		}
+		rounds := 6 + n/10
+		for j := 0; j < rounds; j++ {
+			k := g.xprv()
+			i1, i2 := g.index()&0x7fffffff, g.index()&0x7fffffff
+			// --- public key deserialised from a buffer the harness keeps
+			for _, how := range []string{"DeserializePublicKey", "DeserializeEncodedPublicKey", "Clone", "PublicKey()"} {
+				buf := k.PublicKey().Serialize()
+				snap := append([]byte{}, buf...)
+				var pk *bip32.PublicKey
+				var err error
+				switch how {
+				case "DeserializePublicKey":
+					pk, err = bip32.DeserializePublicKey(buf)
+				case "DeserializeEncodedPublicKey":
+					pk, err = bip32.DeserializeEncodedPublicKey(k.PublicKey().String())
+				case "Clone":
+					var p0 *bip32.PublicKey
+					p0, err = bip32.DeserializePublicKey(buf)
+					if err == nil {
+						c := p0.Clone()
+						pk = &c
+					}
+				default:
+					pk = k.PublicKey()
+				}
+				if err != nil {
+					return fmt.Errorf("%s of a serialised key failed: %v", how, err)
+				}
+				for _, idx := range []uint32{i1, i2} {
+					recv := pk.Serialize()
+					var c *bip32.PublicKey
+					obs := ""
+					if Guard(func() { c, err = pk.NewPublicChildKey(idx) }) {
+						obs = "panic"
+					} else if err != nil {
+						obs = err32(err)
+					} else {
+						obs = hx(c.Serialize())
+					}
+					// model comparison against the ORIGINAL serialisation: a parent damaged by the first call gives a wrong second child
+					emit("ckdpub", "ckdpub", []string{hx(snap), fmt.Sprintf("%x", idx)}, obs, map[string]interface{}{"via": how, "index": idx})
+					alias(how+"+NewPublicChildKey: receiver", recv, pk.Serialize(), map[string]interface{}{"index": idx})
+					alias(how+"+NewPublicChildKey: source buffer", snap, buf, map[string]interface{}{"index": idx})
+					if how == "DeserializePublicKey" {
+						_, e2 := bip32.DeserializePublicKey(buf)
+						ok := "yes"
+						if e2 != nil {
+							ok = "no"
+						}
+						emit("alias", "nop", []string{"-"}, "-", map[string]interface{}{"call": "re-deserialise the kept buffer after NewPublicChildKey", "unchanged": ok, "before": hx(snap), "after": hx(buf)})
+					}
+				}
+			}
+			// --- private key deserialised from a kept buffer
+			{
+				buf := k.Serialize()
+				snap := append([]byte{}, buf...)
+				sk, err := bip32.DeserializePrivateKey(buf)
+				if err != nil {
+					return err
+				}
+				for _, idx := range []uint32{i1, i2 | 0x80000000} {
+					recv := sk.Serialize()
+					var c *bip32.PrivateKey
+					obs := ""
+					if Guard(func() { c, err = sk.NewPrivateChildKey(idx) }) {
+						obs = "panic"
+					} else if err != nil {
+						obs = err32(err)
+					} else {
+						obs = hx(c.Serialize())
+					}
+					emit("ckdpriv", "ckdpriv", []string{hx(snap), fmt.Sprintf("%x", idx)}, obs, map[string]interface{}{"via": "DeserializePrivateKey", "index": idx})
+					alias("NewPrivateChildKey: receiver", recv, sk.Serialize(), nil)
+					alias("NewPrivateChildKey: source buffer", snap, buf, nil)
+					pb := sk.PublicKey().Serialize()
+					alias("PublicKey(): receiver", recv, sk.Serialize(), nil)
+					_ = pb
+				}
+			}
+			// --- byte-slice arguments
+			{
+				seed := g.r.Bytes(16 + g.r.Intn(49))
+				snap := append([]byte{}, seed...)
+				bip32.NewMasterKey(seed)                      //nolint:errcheck
+				bip32.NewPrivateKeyFromPath(seed, "m/0'/1/2") //nolint:errcheck
+				bip44.NewCoin(seed, bip44.CoinTypeSkycoin)    //nolint:errcheck
+				alias("NewMasterKey/NewPrivateKeyFromPath/NewCoin: seed", snap, seed, nil)
+				e := g.entropy()
+				esnap := append([]byte{}, e...)
+				mn, _ := bip39.NewMnemonic(e)
+				alias("NewMnemonic: entropy", esnap, e, nil)
+				e2, _ := bip39.EntropyFromMnemonic(mn)
+				alias("EntropyFromMnemonic(NewMnemonic(e)) = e", esnap, e2, nil)
+				ser := k.Serialize()
+				ssnap := append([]byte{}, ser...)
+				bip32.DeserializePrivateKey(ser) //nolint:errcheck
+				bip32.DeserializePublicKey(ser)  //nolint:errcheck
+				alias("Deserialize*: data", ssnap, ser, nil)
+			}
+		}
+	}
+
 	// ---- deterministic sweep over code-point classes of the passphrase (and of an invalid mnemonic):
 	//      the expected seed is PBKDF2 over the NFKD forms, computed by Python (unicodedata + hashlib)
 	{
